@@ -209,10 +209,13 @@ theorem C18_list_parts_refines_partial (H : Hashes) (dl : Nat) {s : State} (hi :
     Inv (step H dl s (.listParts who b k u)).1 := listParts_refines H dl hi hg
 
 /-- complete_multipart_upload: the object becomes the concatenation of the listed parts in part order with the upload's
-    metadata, the upload is gone; an identity other than the creator gets `AccessDenied` and changes nothing. Partial —
-    excluded: every failing complete by the owner (the upload is consumed: fs:failed-complete-consumes-upload), part lists
-    other than 1..m (fs:complete-requires-consecutive-parts, fs:complete-part-list-validation), the stale side-file
-    cases (fs:stale-metadata-after-complete, fs:stale-checksum-after-complete), fs:complete-into-missing-bucket -/
+    metadata, the upload is gone; an identity other than the creator gets `AccessDenied` and changes nothing; a complete by
+    the owner that names a part that was never uploaded (`InvalidPart`) or whose parts other than the last are below the
+    minimum size (`EntityTooSmall`) is answered alike and changes nothing — the upload stays and can be completed later
+    (before the repair the upload was consumed first: fs:failed-complete-consumes-upload, and a missing part was
+    `InternalError`: fs:complete-missing-part-internal-error). Partial — excluded: part lists other than 1..m
+    (fs:complete-requires-consecutive-parts, fs:complete-part-list-validation), the stale side-file cases
+    (fs:stale-metadata-after-complete, fs:stale-checksum-after-complete), fs:complete-into-missing-bucket -/
 theorem C18_complete_refines_partial (H : Hashes) (dl : Nat) {s : State} (hi : Inv s) {who : Who} {b k : Bytes}
     {u : UploadRef} {parts : Option (List (Option Int))} (hg : CompleteOk s who b k u parts) :
     (step H dl s (.completeMultipartUpload who b k u parts)).2 =
@@ -221,13 +224,23 @@ theorem C18_complete_refines_partial (H : Hashes) (dl : Nat) {s : State} (hi : I
       (StoreSpec.step H (abs s) (.completeMultipartUpload who b k u parts)).1 ∧
     Inv (step H dl s (.completeMultipartUpload who b k u parts)).1 := complete_refines H dl hi hg
 
-/-- the loop of complete_multipart_upload over parts `1..m` that exist with the minimum size writes their concatenation
-    in part order and removes only part files of that upload -/
-theorem C18_complete_concatenates (id total : Nat) (l : List (Option Int)) (cnt : Nat) (acc : Bytes)
-    (parts : List ((Nat × Int) × Bytes)) (cs : List Bytes)
-    (hc : ConsecFrom cnt l) (ht : total = cnt + l.length) (hp : partsOf parts id l = some cs) (hs : sizesOk cs = true) :
-    ∃ ps, completeLoop id total l cnt acc parts = (ps, .ok (acc ++ cs.flatten)) ∧ Erased id parts ps :=
-  completeLoop_ok id total l cnt acc parts cs hc ht hp hs
+/-- the validation of complete_multipart_upload over a part list `cnt+1, …, m` whose parts all exist yields them in part
+    order (what is then written is the concatenation of their contents, `cs.flatten`), its size rule is the store's
+    (`sizesOk`), and the final clean-up removes only part files of that upload; if a listed part does not exist the
+    validation answers `InvalidPart` -/
+theorem C18_complete_concatenates (id : Nat) (l : List (Option Int)) (cnt : Nat)
+    (parts : List ((Nat × Int) × Bytes)) (hc : ConsecFrom cnt l) :
+    match partsOf parts id l with
+    | some cs =>
+      ∃ ps, completeParts id parts l cnt = .ok ps ∧ (ps.map (·.2)).flatten = cs.flatten ∧
+        partTooSmall (cnt + l.length) ps = !sizesOk cs ∧ Erased id parts (eraseParts id (ps.map (·.1)) parts)
+    | none => completeParts id parts l cnt = .error .InvalidPart := by
+  cases hp : partsOf parts id l with
+  | none => exact completeParts_missing id parts l cnt hc hp
+  | some cs =>
+    have hlen : cs.length = l.length := by unfold partsOf at hp; exact optMapM_length _ _ _ hp
+    exact ⟨numbered cnt cs, completeParts_ok id parts l cnt cs hc hp, by rw [numbered_contents],
+      partTooSmall_numbered _ cs cnt (by omega), eraseParts_erased id _ parts⟩
 
 /-- abort_multipart_upload: only by the creator; the upload is gone. Partial — excluded: unknown uploads, other keys -/
 theorem C18_abort_refines_partial (H : Hashes) (dl : Nat) {s : State} (hi : Inv s) {who : Who} {b k : Bytes}
@@ -276,7 +289,7 @@ def bob : Who := some [66]
 
 /-- a realistic history inside `Good`: bucket, writes with and without metadata (also over an object that had some),
     whole / ranged / suffix reads (suffix longer than the object, suffix of an empty object), a copy onto itself, head
-    (of an object and of a key that does not exist), prefix listing with marker, copy, delete (also of the key just deleted), a multipart upload driven by its owner and refused to another identity,
+    (of an object and of a key that does not exist), prefix listing with marker, copy, delete (also of the key just deleted), a multipart upload driven by its owner and refused to another identity, whose completion first fails twice (a listed part was never uploaded: `InvalidPart`; a part other than the last is too small: `EntityTooSmall`) and then succeeds,
     delete_bucket while the bucket holds objects (refused) and after they are deleted (the directory `d` is left behind) -/
 def demo : List Op := [
   .createBucket bka,
@@ -304,6 +317,9 @@ def demo : List Op := [
   .uploadPart alice bka kX (some 1) 1 [7, 8, 9],
   .listParts alice bka kX (some 1),
   .completeMultipartUpload bob bka kX (some 1) (some [some 1]),
+  .completeMultipartUpload alice bka kX (some 1) (some [some 1, some 2]),
+  .uploadPart alice bka kX (some 1) 2 [5],
+  .completeMultipartUpload alice bka kX (some 1) (some [some 1, some 2]),
   .completeMultipartUpload alice bka kX (some 1) (some [some 1]),
   .getObject bka kX none,
   .createMultipartUpload bob bka kA none,
@@ -345,5 +361,9 @@ example : UploadPartCopyOk (run H0 4096 {} (demo.take 23)).1 bka kX (some 1) 2 b
     (some [98, 121, 116, 101, 115, 61, 49, 45, 51]) := by decide
 /-- … and they do exclude the recorded deviations: a copy onto an object that has a metadata file from a source without -/
 example : ¬ CopyOk (run H0 4096 {} (demo.take 5)).1 bka kA bka kDE := by decide
+/-- the owner's failing completes are inside `Good`, are refused, and leave the upload in place -/
+example : Good (run H0 4096 {} (demo.take 25)).1 (demo.getD 25 .listBuckets) ∧
+    (run H0 4096 {} (demo.take 28)).2.drop 25 = [.err .InvalidPart, .part (some (etagOf H0 [5])), .err .EntityTooSmall] ∧
+    (alLookup 1 (run H0 4096 {} (demo.take 28)).1.uploads).isSome = true := by decide
 
 end S3V.C18
